@@ -4,8 +4,8 @@ namespace SdnsVerif.Gen.C15
 def header_len : Nat := 12
 def lib_hroom_violations : Nat := 0
 def lib_mono_violations : Nat := 0
-def lib_sample_messages : Nat := 480
-def lib_sample_records : Nat := 7449
+def lib_sample_messages : Nat := 520
+def lib_sample_records : Nat := 12324
 def libbits_single : List Nat := [0, 32768, 1024, 512, 256, 128, 64, 32, 16, 2048, 4096, 8192, 16384, 32768, 0, 1, 2, 4, 8, 0, 0, 15]
 def max_pooled_compression_entries : Nat := 64
 def msgbits_single : List Nat := [0, 32768, 1024, 512, 256, 128, 64, 32, 16, 2048, 4096, 8192, 16384, 32768, 0, 1, 2, 4, 8, 0, 0, 15]
